@@ -2,6 +2,7 @@
 spec/Datagram.tla (P-level PParse, I-level IParse) -> harness/c05 TestCases through the real DatagramParser."""
 import os
 import vlib
+import rcvstage
 
 LEVEL = "model_checking"
 
@@ -29,6 +30,7 @@ def run_cases(ctx, label, maxlines, simulate=None):
 
 
 def run(ctx):
+    rcvstage.run(ctx, clauses=("Garbled", "Sender", "AtMostOnce", "NoPhantom"))   # buffer ownership and sender address at the socket
     plans = [("L3", 3, None)] if ctx.tier == "quick" else [("L3", 3, None), ("L4", 4, None), ("sim-L7", 7, "num=30000")]
     named = {}
     fails = []
